@@ -16,3 +16,6 @@ func (k *Kauri) VerifAgg() []hotstuff.ID {
 	k.aggContrib.Participants().ForEach(func(id hotstuff.ID) { out = append(out, id) })
 	return out
 }
+
+// VerifView returns the view of the aggregation round Kauri is in.
+func (k *Kauri) VerifView() hotstuff.View { return k.currentView }
